@@ -50,6 +50,19 @@ func (g *Gen) ghostSort(k string) string {
 	return "Int"
 }
 
+// ghostSortOf: like ghostSort, but a ghost declared with a sort alias (a Go type) gets that type's SMT
+// sort, declared in this session; the value it is compared with then carries its Go type.
+func (s *Sess) ghostSortOf(k string) string {
+	g := s.g
+	if gd, ok := g.db.Ghosts[k]; ok && gd[0] != "int" && gd[0] != "bool" {
+		if _, has := g.ghostSorts[k]; !has {
+			srt, _ := g.specSort(s, gd[0], gd[1], nil)
+			return srt
+		}
+	}
+	return g.ghostSort(k)
+}
+
 func (g *Gen) isGhost(k string) bool {
 	if _, ok := g.ghostSorts[k]; ok {
 		return true
@@ -605,7 +618,7 @@ func (fe *FnEnc) frameCheck(ev *Eval, pos token.Pos) {
 			continue
 		}
 		cur := fe.mem.ghost[gk]
-		old := s.ghostGet(fe.entryMem, gk, fe.g.ghostSort(gk))
+		old := s.ghostGet(fe.entryMem, gk, fe.s.ghostSortOf(gk))
 		if cur != old {
 			if strings.HasPrefix(gk, "lock_") {
 				continue // lock state is checked by lock:released
